@@ -309,7 +309,10 @@ func (e *Engine) tryModel(st *State, fn *ssa.Function, args []Value, _ func(*Sta
 }
 
 // invokeSpecial handles interface method calls on engine-internal dynamic types.
-func (e *Engine) invokeSpecial(st *State, recv IfaceV, method string) (Value, bool) {
+func (e *Engine) invokeSpecial(st *State, recv IfaceV, method string, args []Value) (Value, bool) {
+	if recv.typ == shaHasherT {
+		return e.shaMethod(st, recv, method, args)
+	}
 	if recv.typ == ctxTokT {
 		return e.ctxMethod(st, method)
 	}
